@@ -12,14 +12,16 @@ RULE = ('1..4 probes with different channel counts (>= 2) and template counts (>
         'int32/int64/uint32, whitening / inverse whitening / similarity matrices in all, some or none of the probes '
         '(written or skipped as Lean mergeOptional decides); every template cell is a distinct token. One case = one '
         'real Merger.merge(), also run through the Lean file-system model of the whole merge; every fourth case uses '
-        'a Merger / process that has merged before. non-trivial = >= 2 probes (>= 3 probes of different sizes are '
+        'a Merger / process that has merged before, every fourth case is a merge RETRIED on the same Merger after a '
+        'merge() that raised half-way because a required file of one probe was not there yet (Lean mergeRetry, theorem '
+        'C11.merge_again_as_fresh). non-trivial = >= 2 probes (>= 3 probes of different sizes are '
         'forced in the first cases)')
 ASSUMPTIONS = ['np.save/np.load are transport; scipy.linalg.block_diag is modelled by a list definition',
                'pc_feature_ind.npy and template_feature_ind.npy are present in every probe (Merger requires them)']
 
 
 def impl(case):
-    return F.impl(case)       # incl. the `again` modes: a Merger / process that has merged before
+    return F.impl(case)       # incl. the `again` modes: a Merger / process that has merged before, or whose merge() raised
 
 
 def model_query(case, impl_res):
@@ -153,6 +155,7 @@ def nontrivial(case):
 
 def tally(rep, case, impl_res, ans):
     rep.count('again:%s' % case.get('again', 'no'))
+    F.tally_retry(rep, case, impl_res, ans)
     if any(all(v != v for row in tm for v in row) for p in case['probes'] for tm in p['templates']):
         rep.count('a probe with an empty (all-NaN) template')
     rep.count('probe_dir_names:%s/%s' % (case.get('dirnames', 'idx'), case.get('dirkind', 'path')))
@@ -193,11 +196,13 @@ def classify(case, impl_res, ans, why):
 def shrink(case):
     if case.get('again') or case.get('twice'):
         # first: does it fail on a fresh Merger in a fresh state too?
-        yield {k: v for k, v in case.items() if k not in ('again', 'prelude', 'twice')}
+        yield F.without_again(case)
     P = case['probes']
     if len(P) > 1:
         for i in range(len(P)):
-            yield dict(case, probes=P[:i] + P[i + 1:])
+            c = F.drop_probe(case, i)
+            if c is not None:
+                yield c
     for k, p in enumerate(P):
         for key in ('pc_feature_ind', 'template_feature_ind'):
             if p['dtypes'][key] != 'int64':
